@@ -46,6 +46,54 @@ def root_var(n):
     return None
 
 
+TOP_READ = ("heap_min", "array_peek")        # macros that read, without removing it, the element the next extraction removes
+TOP_TAKE = ("heap_extract", "array_pop")
+
+
+def _container_of(n):
+    """Text of the container argument of a heap_min / array_peek / heap_extract / array_pop expansion rooted at n."""
+    mc = n.d.get("mcall")
+    if mc and "(" in mc:
+        inner = mc[mc.index("(") + 1:]
+        depth, out = 0, ""
+        for ch in inner:
+            if ch in "([":
+                depth += 1
+            elif ch in ")]":
+                if depth == 0:
+                    break
+                depth -= 1
+            elif ch == "," and depth == 0:
+                break
+            out += ch
+        return out.replace(" ", "")
+    for x in n.walk():
+        if not x.macros and x.k in ("DeclRefExpr", "MemberExpr", "ArraySubscriptExpr"):
+            return X.show(x).replace(" ", "")
+    return None
+
+
+def _top_macro(n, names):
+    """n (casts stripped) if it is the expansion of one of `names` as a whole, else None."""
+    cur = n
+    for _ in range(8):
+        if cur is None:
+            return None
+        if cur.macros and cur.macros[-1] in names:
+            return cur
+        if cur.k in ("ImplicitCastExpr", "ParenExpr", "CStyleCastExpr") and cur.children:
+            cur = cur.children[0]
+            continue
+        if cur.k == "UnaryOperator" and cur.op == "__extension__" and cur.children:
+            cur = cur.children[0]
+            continue
+        if cur.k == "MemberExpr" and not cur.arrow and cur.children:
+            cur = cur.children[0]      # heap_extract(q, cmp).m
+            continue
+        return None
+    return None
+
+
 class Finding:
     def __init__(self, kind, fn, node, var, detail):
         self.kind, self.fn, self.node, self.var, self.detail = kind, fn, node, var, detail
@@ -233,6 +281,7 @@ class Engine:
             if e.did in tracked:
                 vs = dict(vs)
                 vs[e.did] = self._value_state(e.children[0], vs, tracked) if e.children else "U"
+                self._alias_top(vs, e.did, e.children[0] if e.children else None)
             elif e.children:
                 self._escape_via_store(e.children[0], None, vs, tracked)
             return [(vs, val)]
@@ -241,6 +290,7 @@ class Engine:
             if lhs.k == "DeclRefExpr" and lhs.did in tracked:
                 vs = dict(vs)
                 vs[lhs.did] = self._value_state(rhs, vs, tracked, self_did=lhs.did)
+                self._alias_top(vs, lhs.did, rhs)
                 return [(vs, val)]
             rv = root_var(rhs)
             if rv is not None and rv.did in tracked:
@@ -277,6 +327,20 @@ class Engine:
             return [(vs, val)]
         return [(vs, val)]
 
+    def _top_key(self, text):
+        tbl = self.__dict__.setdefault("_tops", {})
+        return tbl.setdefault(text, -(len(tbl) + 1))
+
+    def _alias_top(self, vs, did, rhs):
+        """v = heap_min(Q) / array_peek(Q): v names the element that the next heap_extract(Q) / array_pop(Q) removes."""
+        for key in [k_ for k_, v_ in vs.items() if isinstance(k_, int) and k_ < 0 and v_ == did]:
+            del vs[key]
+        top = _top_macro(rhs, TOP_READ) if rhs is not None else None
+        if top is not None:
+            c = _container_of(top)
+            if c:
+                vs[self._top_key(c)] = did
+
     def _escape_via_store(self, rhs, lhs, vs, tracked):
         return
 
@@ -304,6 +368,15 @@ class Engine:
                 arg_vars.append((i, rv))
         if callee in self.release:
             vs = dict(vs)
+            for a in args:
+                take = _top_macro(a, TOP_TAKE)
+                c = _container_of(take) if take is not None else None
+                did = vs.get(self._top_key(c)) if c else None
+                if did is not None and did in tracked:
+                    if vs.get(did) in ("D", "G"):
+                        add_finding("double-release", e, did, "`%s` is released twice on a path (second release by %s of the element taken from %s)" % (tracked[did], callee, c))
+                    vs[did] = self.release[callee]
+                    del vs[self._top_key(c)]
             for i, rv in arg_vars:
                 s = vs.get(rv.did)
                 if s in ("D", "G"):
